@@ -83,10 +83,17 @@ def render_path(path):
     return out
 
 
+NORM_DESC = [None]  # schema descriptor used to normalise asdict results of the current instance
+
+
 def normalise_graph_states(edges, inits):
     for e in edges:
         if "errpath" in e["ev"]:
             e["ev"]["errpath"] = render_path(e["ev"]["errpath"])
+        if e["ev"].get("op") == "Query":
+            q = e["ev"]
+            q["asdict"] = cfgadapter.norm_asdict(NORM_DESC[0], q.get("asdict"))
+            q["computed"] = sorted([[list(codec.seq(p)), cfgadapter.canon_state(v)] for p, v in codec.seq(q.get("computed", []))], key=lambda x: x[0])
         if "vlog" in e["ev"]:
             e["ev"]["vlog"] = sorted([render_path(pv[0]), pv[1]] for pv in codec.seq(e["ev"]["vlog"]))
         e["from"] = cfgadapter.canon_state(e["from"])
@@ -119,6 +126,7 @@ def run_machine(prop, invs, props, tier, seed, schema="SchemaA", signature_prefi
     desc = schema_descriptor("MC_Config", schema)
     adapter = cfgadapter.Adapter(cinco, desc)
     adapter.focus = focus
+    NORM_DESC[0] = desc
     # 2a. complete graph of the first level(s)
     cfgx = os.path.join(d, "export.cfg")
     write_cfg(cfgx, schema, 1 if tier == "quick" else 2, export=True)
@@ -338,7 +346,9 @@ def driver(cinco, desc, seed, n_traces, length):
                     ev = {"op": "Reset", "n": n, "p": list(path), "k": key}
                 elif r < 0.75:
                     ev = {"op": rng.choice(["Validate", "ValidateCollect"]), "n": n}
-                elif r < 0.79:
+                elif r < 0.77:
+                    ev = {"op": "Query", "n": n}
+                elif r < 0.80:
                     other = "c2" if n == "c1" else "c1"
                     if w.cfgs[other] is None:
                         continue
